@@ -13,16 +13,17 @@ import (
 
 // Config selects, per property, which outcomes are asserted and which audits run.
 type Config struct {
-	Property   string
-	Assert     map[string]bool // op kinds whose outcome (incl. normal return) is asserted
-	AuditOps   []string        // audits run automatically: sweep, scan, extremes, sizecheck, shape
-	AuditEvery int             // after every n-th op and at the end (0: end only)
-	ExcludeKF  bool            // inserts that would create a KF1/KF2 pair become searches
-	Bracket    bool            // C15: raw-state comparison around calls that must not change the tree
-	Twin       bool            // C12: an emptied tree is shadowed by a freshly created one
-	Arena      bool            // C13: byte-slice keys are carved out of a caller-owned arena
-	Census     bool            // collect node-class census through the hook (classification only)
-	ValType    string          // value type variant (C18); "" = int
+	Property      string
+	Assert        map[string]bool // op kinds whose outcome (incl. normal return) is asserted
+	AuditOps      []string        // audits run automatically: sweep, scan, extremes, sizecheck, shape
+	AuditEvery    int             // after every n-th op and at the end (0: end only)
+	ExcludeKF     bool            // inserts that would create a KF1/KF2 pair become searches
+	Bracket       bool            // C15: raw-state comparison around calls that must not change the tree
+	Twin          bool            // C12: an emptied tree is shadowed by a freshly created one
+	Arena         bool            // C13: byte-slice keys are carved out of a caller-owned arena
+	Census        bool            // collect node-class census through the hook (classification only)
+	CallUndefined bool            // sequence calls whose result has no oracle (carve-outs, collation Range) are still made and consumed
+	ValType       string          // value type variant (C18); "" = int
 }
 
 func asserts(ops ...string) map[string]bool {
@@ -751,6 +752,14 @@ func (e *Engine) doSeq(s *slot, op Op) error {
 	want, defined := e.expectSeq(s, op, op.Op)
 	if !defined {
 		e.fact("carved_out_" + op.Op)
+		if e.cfg.CallUndefined && (op.Op == "range" || op.Op == "prefix") {
+			// no oracle for the result, but the call itself still has to respect the other
+			// properties (caller memory, tree untouched, no leak): make it and consume it
+			if p := call(func() { collect(e.obtainSeq(s.sub, op, op.Op)) }); p != "" {
+				return ErrAbort
+			}
+			e.fact("called_without_oracle_" + op.Op)
+		}
 		return nil
 	}
 	var got []kv
@@ -1094,7 +1103,7 @@ func (e *Engine) doIterAudit(s *slot, op Op) error {
 			}
 			o.Stop = 1
 		case "range":
-			if !s.kind.HasRange() || n == 0 {
+			if !(s.kind.HasRange() || s.kind.Family() == "collation") || n == 0 {
 				continue
 			}
 			o.K, o.K2 = clone(es[0].Raw), clone(es[n-1].Raw)
